@@ -127,12 +127,21 @@ def replay_case(arg):
                         j += 1
                     js.append(j)
                 u = [2.0 ** -j for j in js]
+                before = {f: np.array(smcdrv.to_np(getattr(s, f)), dtype=np.float64, copy=True)
+                          for f in ("log_w", "weights", "log_likelihood", "log_prior", "log_q", "log_evidence", "effective_sample_size")
+                          if getattr(s, f, None) is not None}
                 try:
                     rs = s.rejection_sample(rng=ScriptedUniform(u))
                     kept = [int(round(float(v))) for v in np.atleast_2d(smcdrv.to_np(rs.x))[:, 0]] if len(rs.x) else []
                     exp_kept = [i + 1 for i, k in enumerate(ks) if k != 99 and -js[i] < k - c["kmax"]]
                     if kept != exp_kept:
                         out["viol"].append((f"RejectRule|{tag}", f"rejection_sample kept rows {kept}, rule u < w/max w keeps {exp_kept} (ks={ks}, u=2^-{js})"))
+                    # a query leaves the weighted set as it was: its log-weights are still ll + lp - lq
+                    for f, v0 in before.items():
+                        v1 = np.asarray(smcdrv.to_np(getattr(s, f)), dtype=np.float64)
+                        if v1.shape != v0.shape or not np.array_equal(v0, v1, equal_nan=True):
+                            out["viol"].append((f"WeightDef|after-rejection_sample|{f}|{tag}", f"rejection_sample changed {f} of the set it was called on: {v0.tolist()} -> {v1.tolist()}"))
+                            break
                 except Exception as ex:
                     out["viol"].append((f"RejectRule|{tag}|{type(ex).__name__}", f"rejection_sample raised {type(ex).__name__}: {str(ex)[:100]}"))
     except Exception:
